@@ -207,3 +207,8 @@ def c20_plan(tier, seed):
 
 
 PLANS["C20"] = c20_plan
+
+
+PLANS["C16"] = cpu_plan("regs", 0, 0,
+    "every wrapper listed in the property (Cr0/Cr2/Cr3/Cr4, Dr0-3/Dr6/Dr7, XCr0, Msr, Efer, FsBase, GsBase, KernelGsBase, Star, LStar, SFMask, UCet, SCet, Pat, ApicBase, segment selectors, FS/GS base, load_tss, GS::swap, rflags, mxcsr), each API (read, read_raw, write, write_raw, update, pcid variants) x preset register contents (0, all ones, only unmodelled bits, only modelled bits, alternating patterns, random) x arguments (empty, all, every single flag, random subsets; frame lattice; boundary PCIDs; valid and each invalid class of STAR selector quadruples and XCR0 combinations; canonical lattice; PAT tables over the 6 encodings); the trapped mov-cr/mov-dr/rdmsr/wrmsr/xsetbv/mov-sreg/retfq/ltr/swapgs instructions with register number, ECX and EDX:EAX are recorded in debug and release builds; distinct = distinct (api, preset, arguments)",
+    design=({"module": "MC_Regs", "cfg": "MC_Regs.cfg", "workers": 8},))
